@@ -95,6 +95,23 @@ CLAIMS.update({
         design="2 (C19), 7"),
 })
 
+CLAIMS.update({
+    "C06": dict(
+        category="model_checking",
+        text="Skip-decision part only: the decision skeletons of Walk::skip_entry (serial) and Worker::generate_work (parallel) are "
+             "extracted from the nightly compiler's MIR dump of the ignore crate (regenerated from /repo on every run): every CFG path "
+             "is evaluated symbolically, calls to a fixed list of callees become shared Boolean atoms (ignored, is_stdout, size limit "
+             "set, is_dir, over size, filter set, filter accepts, follow_links, is_symlink), and z3 decides that for EVERY assignment "
+             "the two walkers agree on whether the entry is handed on and that each equals the documented conjunction. A sat "
+             "assignment is replayed natively on a real temp tree through both real walkers.",
+        note="Callee semantics are atoms (should_skip_entry, skip_filesize, the filter closure are not looked into); I/O error paths and "
+             "depth 0 are excluded by assumption. NOT covered (no solver encoding: readdir/stat/symlinks behind FFI): that each entry is "
+             "reported exactly once, depth limits, same-file-system, symlink loops, thread counts. A branch the MIR reader cannot "
+             "classify makes the check inconclusive (exit 2), never a pass.",
+        technique="symbolic path enumeration over rustc MIR + SMT (z3) equivalence of decision formulas; native replay of witnesses",
+        design="3 (C06), 7"),
+})
+
 NOT_APPLICABLE = {
     "C07": "quantifies over thread interleavings of crossbeam deques/atomics; Kani has no concurrency model and no available solver-based engine ingests this Rust; a hand model would not be the real code",
     "C08": "whole-process property over OS scheduling, stdout locking and channels; nothing in it is a bounded computation a solver can be given",
